@@ -3,7 +3,9 @@ mod choices;
 mod client;
 mod gen;
 mod laws;
+mod capture;
 mod monitors;
+mod monitors2;
 mod props;
 mod runner;
 mod scenario;
@@ -13,6 +15,29 @@ mod trace;
 mod view;
 
 use std::collections::HashMap;
+
+/// the rsactor features this harness binary was built with (informational)
+pub static FEATURES: Features = Features;
+pub struct Features;
+impl std::fmt::Display for Features {
+    fn fmt(&self, f: &mut std::fmt::Formatter<'_>) -> std::fmt::Result {
+        let mut v = vec![];
+        if cfg!(feature = "tracing") {
+            v.push("tracing");
+        }
+        if cfg!(feature = "metrics") {
+            v.push("metrics");
+        }
+        if cfg!(feature = "test-utils") {
+            v.push("test-utils");
+        }
+        if cfg!(feature = "deadlock-detection") {
+            v.push("deadlock-detection");
+        }
+        write!(f, "{}", v.join(","))
+    }
+}
+
 
 fn parse_args(args: &[String]) -> HashMap<String, String> {
     let mut m = HashMap::new();
@@ -33,6 +58,7 @@ fn parse_args(args: &[String]) -> HashMap<String, String> {
 fn main() {
     let args: Vec<String> = std::env::args().skip(1).collect();
     trace::install_panic_hook();
+    capture::install();
     let cmd = args.first().cloned().unwrap_or_default();
     let a = parse_args(&args[1.min(args.len())..]);
     let get = |k: &str, d: &str| a.get(k).cloned().unwrap_or_else(|| d.to_string());
@@ -41,10 +67,17 @@ fn main() {
             let prop = get("prop", "C01");
             let tier = get("tier", "quick");
             let thorough = tier == "thorough";
-            let Some(def) = props::get(&prop, thorough) else {
+            let Some(mut def) = props::get(&prop, thorough) else {
                 eprintln!("unknown property {prop}");
                 std::process::exit(2);
             };
+            if let Some(names) = a.get("profiles") {
+                let keep: Vec<&str> = names.split(',').collect();
+                def.profiles.retain(|p| keep.contains(&p.name));
+            } else if !cfg!(feature = "deadlock-detection") {
+                // profiles that generate ask cycles only make sense where cycles are detected
+                def.profiles.retain(|p| !p.name.ends_with("-cyclic"));
+            }
             let cases: u32 = a.get("cases").and_then(|s| s.parse().ok()).unwrap_or(if thorough { def.thorough_cases } else { def.quick_cases });
             let ra = runner::RunArgs {
                 tier,
@@ -55,7 +88,11 @@ fn main() {
                 replay_out: a.get("replays-out").cloned().unwrap_or_else(|| get("replays", "/verif/replays")),
                 known: runner::KnownFile::load(&get("known", "/verif/known_findings.json")),
             };
+            if let Some(rb) = a.get("ref-bin") {
+                runner::start_ref(rb).expect("reference build");
+            }
             let (part, code) = runner::run_prop(&def, &ra);
+            runner::stop_ref();
             let out = get("out", "");
             let js = serde_json::to_string(&part).unwrap();
             if out.is_empty() {
@@ -65,7 +102,13 @@ fn main() {
             }
             std::process::exit(code);
         }
+        "serve" => {
+            runner::serve();
+        }
         "replay" => {
+            if let Some(rb) = a.get("ref-bin") {
+                runner::start_ref(rb).expect("reference build");
+            }
             let prop = get("prop", "C01");
             let Some(def) = props::get(&prop, false) else {
                 eprintln!("unknown property {prop}");
